@@ -138,36 +138,65 @@ func Solve(o *Obligation, opts solveOpts) {
 	// first a short slice for every back end (most goals are decided in milliseconds by at least one of them), then
 	// the full time for those that ran out of it
 	type attempt struct {
-		sp solverSpec
-		to time.Duration
+		sp      solverSpec
+		to      time.Duration
+		variant int
 	}
 	var plan []attempt
 	short := opts.timeout / 4
 	if short < 2*time.Second {
 		short = 2 * time.Second
 	}
+	// the second formulation of the goal (see Obligation.QueryVariant) is tried where the first is not decided
+	variants := []int{0}
+	file1 := ""
+	if o.HasVariant() && o.Expect != "sat" {
+		variants = append(variants, 1)
+		file1 = strings.TrimSuffix(file, ".smt2") + "v.smt2"
+		q1 := o.QueryVariant(1)
+		if opts.getModel {
+			q1 += "(get-model)\n"
+		}
+		os.WriteFile(file1, []byte(q1), 0o644)
+		defer func() {
+			if os.Getenv("GOVC_KEEP") == "" {
+				os.Remove(file1)
+			}
+		}()
+	}
 	if opts.all || short >= opts.timeout {
-		for _, sp := range solvers {
-			plan = append(plan, attempt{sp, opts.timeout})
+		for _, va := range variants {
+			for _, sp := range solvers {
+				plan = append(plan, attempt{sp, opts.timeout, va})
+			}
 		}
 	} else {
-		for _, sp := range solvers {
-			plan = append(plan, attempt{sp, short})
+		for _, va := range variants {
+			for _, sp := range solvers {
+				plan = append(plan, attempt{sp, short, va})
+			}
 		}
-		for _, sp := range solvers {
-			plan = append(plan, attempt{sp, opts.timeout})
+		for _, va := range variants {
+			for _, sp := range solvers {
+				plan = append(plan, attempt{sp, opts.timeout, va})
+			}
 		}
 	}
 	gaveUp := map[string]bool{}
 	for i, at := range plan {
 		sp := at.sp
-		if i >= len(solvers) && !opts.all && gaveUp[sp.name] {
+		key := fmt.Sprintf("%s/%d", sp.name, at.variant)
+		if i >= len(solvers)*len(variants) && !opts.all && gaveUp[key] {
 			continue // answered `unknown` before its time was up: more time will not help
 		}
-		st, out, el := runSolver(sp, file, at.to, opts.seed)
+		f := file
+		if at.variant == 1 {
+			f = file1
+		}
+		st, out, el := runSolver(sp, f, at.to, opts.seed)
 		total += el
 		if st == "unknown" {
-			gaveUp[sp.name] = true
+			gaveUp[key] = true
 		}
 		if st == "error" {
 			if o.Status == "unknown" {
